@@ -505,11 +505,16 @@ class BufferWorld:
             # submission and the quiet timer the submission is processed first (the sequential driver gives the other order)
             fired = [0]
 
-            def fire(op):
-                fired[0] += 1
-                run_op(op)
+            def fire(group):
+                # one timer per instant: simultaneous operations happen in program order
+                for op in group:
+                    fired[0] += 1
+                    run_op(op)
+            groups = {}
             for op in ops:
-                loop.call_at(op['at'], fire, op)
+                groups.setdefault(op['at'], []).append(op)
+            for at in sorted(groups):
+                loop.call_at(at, fire, groups[at])
             last = max([op['at'] for op in ops] + [0.0])
             if last > loop.time():
                 await asyncio.sleep(last - loop.time())
